@@ -505,3 +505,303 @@ def oracle_c19(run):
     if run.dags["mem"]["n"] == sum(ft["nc"]) + ft["nc"][0] + ft["nc"][1] + 1 and set(run.dags["mem"]["S"]) != names:
         bad.append("uncontracted dump: string table %s differs from the recorded file names %s" % (sorted(run.dags["mem"]["S"]), sorted(names)))
     return bad
+
+
+# ------------------------------------------------------------------------------------------------
+# the model side (drv_dag) and the campaign shared by C18 and C19
+# ------------------------------------------------------------------------------------------------
+
+def fmt_root(run):
+    return "root " + " ".join(str(x) for x in run.root) + " count %d" % run.dags["mem"]["n"]
+
+
+def model_lines_c18(run, opt):
+    """driver input lines and the implementation's answers they must reproduce"""
+    _, flat = parse_cap(run.cap)
+    ft = flat_totals(flat)
+    lines = ["tree fixed %d %d %d %s" % (run.start_clock, run.rootpos[0], run.rootpos[1], " ".join(model_tree_tokens(run.cap))),
+             "rec %d %d %d %d %d" % tuple(opt), "leaves", "flat"]
+    exp = ["ok %d true" % len(flat), fmt_root(run),
+           "leaves " + " ".join("%d %d %d" % (d["est"], d["inek"], d["frt"]) for d in flat),
+           "flat %d %d %s %s" % (ft["work"], ft["span"], " ".join(map(str, ft["nc"])), " ".join(map(str, ft["ec"])))]
+    return lines, exp
+
+
+def items_of(toks):
+    """(start, end) token ranges of removable items: an O, a whole section S..W / s..W, a create C T..E"""
+    out = []
+    stack = []
+    for i, t in enumerate(toks):
+        if t == "O":
+            out.append((i, i + 1))
+        elif t in ("S", "s"):
+            stack.append(i)
+        elif t == "W":
+            out.append((stack.pop(), i + 1))
+        elif t == "C":
+            stack.append(i)
+        elif t == "E" and stack and toks[stack[-1]] == "C":
+            out.append((stack.pop(), i + 1))
+    return out
+
+
+def valid_prog(toks):
+    """implicit sections must start with C or be a bare wait (the generator's invariant)"""
+    for i, t in enumerate(toks):
+        if t == "s" and toks[i + 1] not in ("C", "W"):
+            return False
+    return True
+
+
+def shrink_prog(toks, fails, budget=80):
+    """greedy structural minimisation: drop whole items while `fails` stays true"""
+    cur = list(toks)
+    calls = 0
+    progress = True
+    while progress and calls < budget:
+        progress = False
+        for (a, b) in sorted(items_of(cur), key=lambda r: r[0] - r[1]):      # largest first
+            cand = cur[:a] + cur[b:]
+            if not valid_prog(cand):
+                cand = [("S" if t == "s" else t) for t in cand]
+            calls += 1
+            if fails(cand):
+                cur = cand
+                progress = True
+                break
+            if calls >= budget:
+                break
+    return cur
+
+
+def bucket(n, edges):
+    for e in edges:
+        if n < e:
+            return "<%d" % e
+    return ">=%d" % edges[-1]
+
+
+class Case:
+    pass
+
+
+def gen_cases(res, nprog, corpus_dir):
+    """corpus cases (replayed first) then seeded programs x the option grid"""
+    cases = []
+    if os.path.isdir(corpus_dir):
+        for fn in sorted(os.listdir(corpus_dir)):
+            if fn.endswith(".run"):
+                w = open(os.path.join(corpus_dir, fn)).readline().split()
+                c = Case()
+                c.seed, c.nworkers, c.sched, c.wmode, c.nfiles = [int(x) for x in w[1:6]]
+                c.opt = tuple(int(x) for x in w[6:11])
+                c.sopt = tuple(int(x) for x in w[11:14])
+                c.toks = w[15:]
+                c.fam = "corpus"
+                cases.append(c)
+    ncorpus = len(cases)
+    rng = common.Splitmix(res.seed * 7919 + 18)
+    grid = option_grid(res.tier)
+    for i in range(nprog):
+        toks, fam = gen_prog(rng, i, quick=(res.tier == "quick"))
+        nworkers = 1 + rng.below(6)
+        for gi, opt in enumerate(grid):
+            c = Case()
+            c.seed = rng.next() % (1 << 62)
+            c.nworkers = nworkers if rng.chance(3, 4) else 1 + rng.below(8)
+            c.sched, c.wmode, c.nfiles = rng.below(3), rng.below(4), 1 + rng.below(6)
+            if rng.chance(1, 10):
+                c.nfiles = 20 + rng.below(40)
+            c.opt, c.sopt = opt, SHRINK_GRID[(i + gi) % len(SHRINK_GRID)]
+            c.toks, c.fam = toks, fam
+            cases.append(c)
+    return cases, ncorpus
+
+
+def run_case(exe, c, prefix):
+    return run_impl(exe, c.seed, c.nworkers, c.sched, c.wmode, c.nfiles, c.opt, c.sopt, prefix, c.toks)
+
+
+def campaign(res, want, nprog, corpus_dir, model_lines, oracle):
+    """correspondence (drv_dag vs harness/dag_unit.c on the CAPTURED stamps) + the property oracle on the
+    implementation's own output.  `model_lines(run, opt)` -> (driver lines, expected outputs)."""
+    exe, err = build()
+    if err:
+        res.brk("build", err)
+        return
+    tmp = os.path.join(common.BUILD, "dag", "run-%s-%d" % (res.pid, os.getpid()))
+    os.makedirs(tmp, exist_ok=True)
+    prefix = os.path.join(tmp, "p")
+    cases, ncorpus = gen_cases(res, nprog, corpus_dir)
+    hist = {"family": {}, "intervals": {}, "create_depth": {}, "section_nest": {}, "max_fanout": {}, "sched": {}, "wmode": {},
+            "nworkers": {}, "nfiles": {}, "materialized_ratio": {}, "policy": {}}
+    seen, nontriv = set(), 0
+    first_bad, first_diff = None, None
+    agree = disagree = 0
+    batch_lines, batch_exp, batch_case = [], [], []
+
+    def flush():
+        nonlocal agree, disagree, first_diff
+        if not batch_lines:
+            return
+        outs = common.driver("dag", batch_lines, timeout=900)
+        if len(outs) != len(batch_lines):
+            raise RuntimeError("drv_dag answered %d lines for %d" % (len(outs), len(batch_lines)))
+        bad_cases = set()
+        for l, e, o, ci in zip(batch_lines, batch_exp, outs, batch_case):
+            if e is not None and e != o:
+                if ci not in bad_cases and first_diff is None:
+                    j = next((k for k in range(min(len(e), len(o))) if e[k] != o[k]), 0)
+                    first_diff = (cases[ci], l[:80], e[max(0, j - 60):j + 60], o[max(0, j - 60):j + 60])
+                bad_cases.add(ci)
+        ncase = len(set(batch_case))
+        disagree += len(bad_cases)
+        agree += ncase - len(bad_cases)
+        del batch_lines[:], batch_exp[:], batch_case[:]
+
+    def inc(h, k):
+        hist[h][str(k)] = hist[h].get(str(k), 0) + 1
+
+    for ci, c in enumerate(cases):
+        run = run_case(exe, c, prefix)
+        sh = shape(c.toks)
+        if ci >= ncorpus and c.opt == cases[ncorpus].opt:       # once per program
+            inc("family", c.fam)
+            inc("intervals", bucket(sh["intervals"], (5, 20, 100, 500, 1000, 2000)))
+            inc("create_depth", sh["create_depth"])
+            inc("section_nest", sh["section_nest"])
+            inc("max_fanout", bucket(sh["max_fanout"], (1, 2, 4, 8, 16)))
+        inc("sched", c.sched)
+        inc("wmode", c.wmode)
+        inc("nworkers", c.nworkers)
+        inc("nfiles", bucket(c.nfiles, (2, 4, 8, 32)))
+        inc("policy", "target" if c.opt[3] else ("count" if c.opt[2] else "span"))
+        h = common.hashcase([c.toks, c.opt, c.sched, c.wmode, c.nworkers])
+        if h not in seen and sh["creates"] >= 1 and sh["intervals"] >= 5:
+            nontriv += 1
+        seen.add(h)
+        bad = oracle(run)
+        if bad and first_bad is None:
+            first_bad = (c, bad)
+        if run.crash:
+            disagree += 1
+            continue
+        total = sh["intervals"] + sh["creates"] + sh["sections"] + 1
+        inc("materialized_ratio", bucket(100 * run.dags["mem"]["n"] // total, (5, 25, 50, 75, 100)))
+        ls, ex = model_lines(run, c.opt, c.sopt)
+        batch_lines.extend(ls)
+        batch_exp.extend(ex)
+        batch_case.extend([ci] * len(ls))
+        if len(batch_lines) > 400:
+            flush()
+    flush()
+    shutil.rmtree(tmp, ignore_errors=True)
+    sample = cases[ncorpus] if len(cases) > ncorpus else cases[0]
+    res.add_cases(len(cases), nontriv, [" ".join(sample.toks[:40])],
+                  rule="recorded executions = generated well-nested programs (8 shape families, create depth <= 8, <= 2000 intervals) x 12 "
+                       "contraction settings x serial multi-worker schedules; non-trivial = >= 1 create and >= 5 intervals; distinct by hash "
+                       "of (program, options, schedule mode, worker mode, workers)")
+    res.cov["traces_validated_against_impl"] += agree
+    res.cov["disagreements_checked"] += disagree
+    res.notes["shape_histogram"] = hist
+    res.notes["corpus_cases"] = ncorpus
+    if first_bad:
+        c, bad = first_bad
+
+        def fails(toks):
+            c2 = Case()
+            c2.__dict__.update(c.__dict__)
+            c2.toks = toks
+            os.makedirs(tmp, exist_ok=True)
+            try:
+                return bool(oracle(run_case(exe, c2, prefix)))
+            except RuntimeError:
+                return False
+        small = shrink_prog(c.toks, fails)
+        c.toks = small
+        os.makedirs(tmp, exist_ok=True)
+        r2 = run_case(exe, c, prefix)
+        b2 = oracle(r2) or bad
+        shutil.rmtree(tmp, ignore_errors=True)
+        p = common.write_replay(res.pid, "failing.run", r2.cmdline.replace(prefix, "@PREFIX@") + "# " + b2[0] + "\n")
+        res.violations.append((p, True, b2[0]))
+    elif first_diff:
+        c, l, e, o = first_diff
+        line = "run %d %d %d %d %d %d %d %d %d %d %d %d %d @PREFIX@ %s\n" % (
+            (c.seed, c.nworkers, c.sched, c.wmode, c.nfiles) + tuple(c.opt) + tuple(c.sopt) + (" ".join(c.toks),))
+        p = common.write_replay(res.pid, "disagreement.run", line + "# model drv_dag and harness/dag_unit.c disagree on `%s`\n" % l)
+        res.brk("correspondence", "model `drv_dag` and harness/dag_unit.c disagree on `%s`: impl=...%s... model=...%s... (replay %s)" % (l, e, o, p))
+
+
+def replay(pid, path, oracle):
+    exe, err = build()
+    if err:
+        print("build failed:", err)
+        return 2
+    w = open(path).readline().split()
+    c = Case()
+    c.seed, c.nworkers, c.sched, c.wmode, c.nfiles = [int(x) for x in w[1:6]]
+    c.opt = tuple(int(x) for x in w[6:11])
+    c.sopt = tuple(int(x) for x in w[11:14])
+    c.toks = w[15:]
+    tmp = os.path.join(common.BUILD, "dag", "replay-%d" % os.getpid())
+    os.makedirs(tmp, exist_ok=True)
+    run = run_case(exe, c, os.path.join(tmp, "p"))
+    bad = oracle(run)
+    print("program:", " ".join(c.toks))
+    print("options (uncollapse_min collapse_max collapse_max_count node_count_target prune_threshold):", c.opt, "conversion:", c.sopt)
+    if not run.crash:
+        print("root:", run.root)
+        for k in ("work (T1)", "critical_path (T_inf)", "create_task", "wait_tasks", "end_task", "dag nodes", "materialized nodes"):
+            print("  .stat %s = %s" % (k, run.stat.get(k)))
+        print("  .stat edge totals (end,create,create_cont,wait_cont,other_cont):", stat_edge_totals(run.stat))
+    shutil.rmtree(tmp, ignore_errors=True)
+    for b in bad:
+        print("ORACLE:", b)
+    if bad:
+        print("VIOLATION property=%s replay=%s" % (pid, path))
+        return 1
+    print("no violation on replay")
+    return 0
+
+
+# ------------------------------------------------------------------------------------------------
+# C19: the position independent DAG
+# ------------------------------------------------------------------------------------------------
+
+def fmt_dag(dag):
+    """the canonical one-line print of drv_dag for an implementation DAG"""
+    out = ["dag %d %d %d %d" % (dag["n"], dag["m"], dag["ns"], dag["nw"])]
+    for x in dag["N"]:
+        out.append("N " + " ".join(str(v) for v in x))
+    for e in dag["E"]:
+        out.append("E %d %d %d" % (e[0], e[1], e[2]))
+    for s in dag["S"]:
+        out.append("S %d" % int(s[1:-2]))
+    return " ".join(out)
+
+
+def fmt_replay(rp):
+    # impl: nev*4 leaves once inner n_running n_ready max_running t cum_running cum_ready nonmono
+    return "replay " + " ".join(str(x) for x in rp[0:9] + rp[10:14]) + " 0"
+
+
+def fmt_stat(st, nw):
+    sc = [int(st[k]) for k in ("work (T1)", "critical_path (T_inf)", "create_task", "wait_tasks", "end_task", "dag nodes", "materialized nodes")]
+    tot = stat_edge_totals(st)
+    mats = []
+    for k in EK:
+        mats.append("M " + " ".join(str(v) for row in st["edges"][k] for v in row))
+    return "stat " + " ".join(map(str, sc + tot)) + " " + " ".join(mats)
+
+
+WF_OK = "wf true offsets=true edgeEnds=true grouped=true counted=true strings=true degrees=true certificate=true"
+
+
+def model_lines_c19(run, opt, sopt):
+    lines = ["tree fixed %d %d %d %s" % (run.start_clock, run.rootpos[0], run.rootpos[1], " ".join(model_tree_tokens(run.cap))),
+             "rec %d %d %d %d %d" % tuple(opt), "dag %d" % run.nworkers, "wf G", "replay G", "stat G",
+             "shrink %d %d %d" % tuple(sopt), "wf H", "replay H", "stat H"]
+    exp = [None, fmt_root(run), fmt_dag(run.dags["mem"]), WF_OK, fmt_replay(run.replay["mem"]), fmt_stat(run.stat, run.nworkers),
+           fmt_dag(run.dags["shr"]), WF_OK, fmt_replay(run.replay["shr"]), fmt_stat(run.stat_s, run.nworkers)]
+    return lines, exp
